@@ -152,6 +152,16 @@ Section Merge.
     let m := fold_left (fun m kv => fst (m_put g m (fst kv) (snd kv))) (query_all (data src)) m in
     m_close g uid m.
 
+  (** the number [Source::Dump] returns: accepted metadata records plus the [Put]s that
+      returned true *)
+  Definition merge_count (inits : bool) (g : Z) (src dst : db) : nat :=
+    let m := mk_merger inits dst in
+    let m := fold_left (fun m kv => m_meta_put m (fst kv) (snd kv)) (meta src) m in
+    snd (fold_left (fun (mn : merger * nat) kv =>
+                      let (m', ok) := m_put g (fst mn) (fst kv) (snd kv) in
+                      (m', if ok then S (snd mn) else snd mn))
+                   (query_all (data src)) (m, length (meta src))).
+
   Definition merge_db (inits : bool) (g : Z) (uid : bytes) (src dst : db) : db :=
     m_db (merge_run inits g uid src dst).
 
